@@ -324,8 +324,10 @@ def class_special(rng, thorough):
     # folded header growth
     if thorough:
         big = "X: a\r\n" + (" " + "f" * 990 + "\r\n") * 110 + "\r\n"
-        out.append(case("p=0,hard=2000", None, ["O", "Q" + hx(B("GET / HTTP/1.1\r\n" + big)), "c"]))
-        out.append(case("p=0,hard=200000", None, ["O", "Q" + hx(B("GET / HTTP/1.1\r\n" + big)), "c"]))
+        # (delivered in 700-byte pieces: the model's checked reads are linear in the chunk length)
+        bigb = B("GET / HTTP/1.1\r\n" + big)
+        out.append(case("p=0,hard=2000", None, ["O"] + ops_cuts(bigb, range(700, len(bigb), 700)) + ["c"]))
+        out.append(case("p=0,hard=200000", None, ["O"] + ops_cuts(bigb, range(700, len(bigb), 700)) + ["c"]))
     return out
 
 
